@@ -142,3 +142,175 @@ Definition check_multi (c : multi_case) : result :=
 
 Definition explain_multi (c : multi_case) :=
   map mout_code (mrun (m_pol c) (mrl0 (m_pol c)) (melapsed 0 (m_ops c))).
+
+(** *** RateLimiter filter histories (rule selection, 429 mapping, reload carry-over) *)
+Inductive fop_in :=
+| IInit (spec : nat) (dt : Z) (refs : list Z)                  (* observed limiter identities, -1 = nil *)
+| IInherit (spec from : nat) (dt : Z) (refs : list Z)          (* refs = [-2]: Inherit itself panicked *)
+| IHandle (g : nat) (dt : Z) (matches : list bool) (code : Z). (* observed: 0 pass | 1 limited+429 | 2 panic | 3 other *)
+
+Record flt_case := { fc_specs : list fspec; fc_ops : list fop_in; fc_bad : bool }.
+
+Definition ref_code (r : option Z) : Z := match r with Some k => k | None => -1 end.
+
+Definition fout_code (o : fout) : Z :=
+  match o with
+  | FPass _ _ => 0
+  | FLimited _ => 1
+  | FPanic => 2
+  end.
+
+Definition spec_at (specs : list fspec) (i : nat) : fspec := nth i specs empty_spec.
+
+(** model run; returns per op whether model = observation *)
+Fixpoint flt_corr (q : quirks) (specs : list fspec) (w : fworld) (now : Z) (ops : list fop_in) : bool :=
+  match ops with
+  | [] => true
+  | IInit si dt refs :: t =>
+      let now' := now + dt in
+      let '(w', o) := fstep q w (FInit (spec_at specs si) now') in
+      match o with
+      | OGen r => list_eqb Z.eqb (map ref_code r) refs && flt_corr q specs w' now' t
+      | _ => false
+      end
+  | IInherit si from dt refs :: t =>
+      let now' := now + dt in
+      let '(w', o) := fstep q w (FInherit (spec_at specs si) from now') in
+      match o with
+      | OGen r => list_eqb Z.eqb (map ref_code r) refs && flt_corr q specs w' now' t
+      | OInheritPanic => list_eqb Z.eqb [-2] refs && flt_corr q specs w' now' t
+      | _ => false
+      end
+  | IHandle g dt matches code :: t =>
+      let now' := now + dt in
+      let '(w', o) := fstep q w (FHandle g now' matches) in
+      match o with
+      | OHandle r => (fout_code r =? code) && flt_corr q specs w' now' t
+      | _ => false
+      end
+  end.
+
+(** property checker on the observed history only.
+    [gens] = (spec, observed refs) of every generation so far; [seen] = all refs observed so far. *)
+Fixpoint expected_share (snew sold : fspec) (urls : list furl) (oldrefs : list Z) : list (option Z) :=
+  match urls with
+  | [] => []
+  | u :: t =>
+      (match find_prev snew sold u (combine (fs_urls sold) (map Some oldrefs)) 0 with
+       | Some (_, Some r) => Some r
+       | _ => None
+       end) :: expected_share snew sold t oldrefs
+  end.
+
+Fixpoint share_ok (expect : list (option Z)) (refs : list Z) (seen : list Z) : bool :=
+  match expect, refs with
+  | [], [] => true
+  | Some r :: et, x :: rt => (x =? r) && negb (x =? -1) && share_ok et rt seen
+  | None :: et, x :: rt => negb (existsb (Z.eqb x) seen) && negb (x =? -1) && share_ok et rt (x :: seen)
+  | _, _ => false
+  end.
+
+Fixpoint flt_prop (specs : list fspec) (gens : list (fspec * list Z)) (seen : list Z) (ops : list fop_in) : bool :=
+  match ops with
+  | [] => true
+  | IInit si _ refs :: t =>
+      let s := spec_at specs si in
+      share_ok (map (fun _ => None) (fs_urls s)) refs seen &&
+      flt_prop specs (gens ++ [(s, refs)]) (refs ++ seen) t
+  | IInherit si from _ refs :: t =>
+      let s := spec_at specs si in
+      match nth_error gens from with
+      | None => false
+      | Some (sold, oldrefs) =>
+          share_ok (expected_share s sold (fs_urls s) oldrefs) refs seen &&
+          flt_prop specs (gens ++ [(s, refs)]) (refs ++ seen) t
+      end
+  | IHandle g _ matches code :: t =>
+      (* never a panic; a request matching no rule is never limited *)
+      ((code =? 0) || (code =? 1)) &&
+      (if existsb (fun b => b) matches then true else code =? 0) &&
+      flt_prop specs gens seen t
+  end.
+
+Definition is_inherit (o : fop_in) : bool := match o with IInherit _ _ _ _ => true | _ => false end.
+Definition is_limited (o : fop_in) : bool := match o with IHandle _ _ _ c => c =? 1 | _ => false end.
+Definition is_unmatched (o : fop_in) : bool :=
+  match o with IHandle _ _ m _ => negb (existsb (fun b => b) m) | _ => false end.
+
+(** [pinned]: quirk flags of the open known findings (supplied by the driver).
+    A failing [prop] is attributed to flag 1 iff the pinned model reproduces the
+    whole observation and the ideal model does not exhibit the failure on this
+    history (no Inherit panic, i.e. the ideal model's trace satisfies [flt_prop]). *)
+Fixpoint model_ops (q : quirks) (specs : list fspec) (w : fworld) (now : Z) (ops : list fop_in) : list fop_in :=
+  match ops with
+  | [] => []
+  | IInit si dt _ :: t =>
+      let '(w', o) := fstep q w (FInit (spec_at specs si) (now + dt)) in
+      IInit si dt (match o with OGen r => map ref_code r | _ => [-3] end) :: model_ops q specs w' (now + dt) t
+  | IInherit si from dt _ :: t =>
+      let '(w', o) := fstep q w (FInherit (spec_at specs si) from (now + dt)) in
+      IInherit si from dt (match o with OGen r => map ref_code r | OInheritPanic => [-2] | _ => [-3] end)
+        :: model_ops q specs w' (now + dt) t
+  | IHandle g dt m _ :: t =>
+      let '(w', o) := fstep q w (FHandle g (now + dt) m) in
+      IHandle g dt m (match o with OHandle r => fout_code r | _ => 3 end) :: model_ops q specs w' (now + dt) t
+  end.
+
+Definition check_flt_with (pinned : quirks) (c : flt_case) : result :=
+  if fc_bad c then (true, true, 0%N, 0%N) else
+  let corr := flt_corr pinned (fc_specs c) fworld0 0 (fc_ops c) in
+  let prop := flt_prop (fc_specs c) [] [] (fc_ops c) in
+  let ideal_ok := flt_prop (fc_specs c) [] [] (model_ops ideal (fc_specs c) fworld0 0 (fc_ops c)) in
+  (corr, prop,
+   (1 + bN (existsb is_inherit (fc_ops c)) 1 + bN (existsb is_limited (fc_ops c)) 2
+      + bN (existsb is_unmatched (fc_ops c)) 4)%N,
+   if negb prop && corr && q_rl_inherit_steals_limiter pinned && ideal_ok then 1%N else 0%N).
+
+Fixpoint flt_model_trace (specs : list fspec) (w : fworld) (now : Z) (ops : list fop_in) : list fobs :=
+  match ops with
+  | [] => []
+  | IInit si dt _ :: t =>
+      let '(w', o) := fstep ideal w (FInit (spec_at specs si) (now + dt)) in o :: flt_model_trace specs w' (now + dt) t
+  | IInherit si from dt _ :: t =>
+      let '(w', o) := fstep ideal w (FInherit (spec_at specs si) from (now + dt)) in o :: flt_model_trace specs w' (now + dt) t
+  | IHandle g dt m _ :: t =>
+      let '(w', o) := fstep ideal w (FHandle g (now + dt) m) in o :: flt_model_trace specs w' (now + dt) t
+  end.
+Definition explain_flt (pinned : quirks) (c : flt_case) := model_ops pinned (fc_specs c) fworld0 0 (fc_ops c).
+
+(** *** MQTT publish limiter *)
+Record mqtt_case := { q_req : Z; q_bytes : Z; q_period : Z; q_ops : list (Z * Z); q_obs : list Z }.
+
+Definition mqtt_period (c : mqtt_case) : Z := (if 0 <? q_period c then q_period c else 1) * second.
+
+(** per period: admitted packets <= requestRate; bytes admitted BEFORE each admitted packet < bytesRate *)
+Fixpoint mqtt_prop (c : mqtt_case) (k nreq nbytes : Z) (ops : list (Z * Z)) (obs : list Z) : bool :=
+  match ops, obs with
+  | [], [] => true
+  | (el, b) :: ot, o :: bt =>
+      let k' := el ÷ mqtt_period c in
+      let nreq0 := if k' =? k then nreq else 0 in
+      let nbytes0 := if k' =? k then nbytes else 0 in
+      if o =? 1 then
+        (if 0 <? q_req c then nreq0 <? q_req c else true) &&
+        (if 0 <? q_bytes c then nbytes0 <? q_bytes c else true) &&
+        mqtt_prop c k' (nreq0 + 1) (nbytes0 + b) ot bt
+      else if o =? 0 then mqtt_prop c k' nreq0 nbytes0 ot bt
+      else false
+  | _, _ => false
+  end.
+
+Definition check_mqtt (c : mqtt_case) : result :=
+  let ops := elapsed 0 (q_ops c) in
+  let model := map (fun b : bool => if b then 1 else 0) (mqtt_run (mqtt_new (q_req c) (q_bytes c) (q_period c)) ops) in
+  let limited := (0 <? q_req c) || (0 <? q_bytes c) in
+  let both := (0 <? q_req c) && (0 <? q_bytes c) in
+  let refused := existsb (Z.eqb 0) (q_obs c) in
+  (list_eqb Z.eqb model (q_obs c),
+   if (q_req c <? 0) || (q_bytes c <? 0) then true else mqtt_prop c (-1) 0 0 ops (q_obs c),
+   match ops with [] => 0%N | _ =>
+     (1 + bN refused 1 + bN both 2 + bN limited 4)%N end,
+   0%N).
+
+Definition explain_mqtt (c : mqtt_case) :=
+  mqtt_run (mqtt_new (q_req c) (q_bytes c) (q_period c)) (elapsed 0 (q_ops c)).
